@@ -106,6 +106,10 @@ def xml_mutations(xml, r, per_site=None):
     muts.append(("xmlempty", text, "", 0))
     muts.append(("xmlnotxml", text[:40], "\x00\x01 not xml <<<", 0))
     muts.append(("xmlentity", "<e57Root", '<!DOCTYPE x [<!ENTITY a "aaaaaaaaaa"><!ENTITY b "&a;&a;&a;&a;&a;&a;&a;&a;">]><e57Root', 0))
+    # entity expansion: nested internal entities (10 levels of 10 references each would expand to 10^10 characters)
+    lv = "".join(f'<!ENTITY l{i} "' + f"&l{i - 1};" * 10 + '">' for i in range(1, 10))
+    muts.append(("xmlentitybomb", "<e57Root", '<!DOCTYPE x [<!ENTITY l0 "aaaaaaaaaa">' + lv + ']><e57Root', 0))
+    muts.append(("xmlentitybomb-used", '<guid type="String"><![CDATA[', '<guid type="String">&l9;<![CDATA[', 0))
     return muts
 
 
@@ -153,6 +157,10 @@ def generate(bases, seed, tier):
         for xl, fl in ((1 << 28, 1 << 40), (1 << 33, 1 << 62), ((1 << 64) - 1, (1 << 64) - 1), (size * 4, size * 8)):
             out.append({"base": bi, "name": f"b{bi}:hdr.xmllen={xl}&hdr.length={fl}",
                         "edits": [{"k": "log", "off": 32, "bytes": le(xl, 8)}, {"k": "log", "off": 16, "bytes": le(fl, 8)}], "reseal": True})
+        # billion laughs: the entity definitions and a use of the outermost entity in the file GUID
+        bomb = [m for m in xm if m[0].startswith("xmlentitybomb")]
+        if len(bomb) == 2:
+            out.append({"base": bi, "name": f"b{bi}:xmlentitybomb+use", "edits": [{"k": "xml", "from": m[1], "to": m[2], "nth": m[3]} for m in bomb], "reseal": True})
         # a blob enlarged consistently in its XML descriptor and in its section header (past the end of the file and beyond)
         for m in list(re.finditer(r'type="Blob" fileOffset="(\d+)" length="(\d+)"', text))[:4]:
             lp = phys2log(int(m.group(1)))
